@@ -10,6 +10,7 @@
 
 mod alloc;
 mod common;
+mod live;
 mod c18b;
 mod sim;
 mod world;
@@ -52,10 +53,12 @@ properties! {
     "C03" => c03,
     "C04" => c04,
     "C05" => c05,
+    "C06" => c06,
     "C07" => c07,
     "C08" => c08,
     "C09" => c09,
     "C10" => c10,
+    "C17" => c17,
     "C18" => c18,
 }
 
